@@ -1,6 +1,8 @@
 import Hgxv.Proofs.C15Closed
+import Hgxv.Proofs.C15Node
 import Hgxv.Proofs.C15Loop
-import Mathlib.Tactic.IntervalCases
+import Hgxv.Proofs.C15Witness
+import Hgxv.Proofs.C15Exact
 /-! # C15 — Hy-MMSBM quantities equal their definitions; EM ascends, fixed inputs stay
 
 Theorems about the executable model `Hgxv/Model/C15.lean` (exact rationals; `Real.log` for the
@@ -97,6 +99,16 @@ theorem C15_exp_degree_avg (N K : ℕ) (u w : Mat) (hw : ∀ a < K, ∀ b < K, w
   have hNq : (0 : ℚ) < (N : ℚ) := by exact_mod_cast hN
   unfold Cterm; field_simp
 
+/-- `expected_degree(per_node=True, d=ds)[i] = C(ds)·Σ_{j≠i} u_iᵀ w u_j + C'(ds)·Σ_{j<k, j,k≠i} u_jᵀ w u_k` is the
+expected degree of node `i`: the sum over all hyperedges `e ∋ i` with a size in `ds` of `λ_e/κ_|e|`
+(`degree_sequence(expected=True)` is the same call).  Hypotheses: `w` symmetric, `N ≥ 3` (the code divides
+by `N−2`), `i < N`, every size in `2..N`. -/
+theorem C15_exp_degree_node (N K : ℕ) (u w : Mat) (hw : ∀ a < K, ∀ b < K, w a b = w b a) (hN : 3 ≤ N)
+    (i : ℕ) (hi : i < N) (ds : List ℕ) (hds : ∀ d ∈ ds, 2 ≤ d ∧ d ≤ N) :
+    expDegNode N K u w ds i
+      = sumL ds fun d => ∑ e ∈ (range N).powersetCard d with i ∈ e, pairSum K u w e / kappa N d :=
+  expDegNode_closed N K u w hw hN i hi ds hds
+
 /-! ## `fit` never changes a supplied parameter
 For every data set, every supplied array, every value of the random initialisation (`u0`, `w0`), every prior,
 every `n`: the returned object holds the very array that was supplied (the model is pure, so the caller's
@@ -140,7 +152,7 @@ theorem C15_fixed_max_size (d : Data) (uSup wSup : Option (List (List Rat))) (D0
 prior are, and zero where `w` is zero (diagonal stays diagonal).  (`u ≥ 0`, `w ≥ 0` symmetric are the
 constructor's checks; weights are positive.) -/
 theorem C15_update_nonneg_sym (d : Data) (u w r : Mat) (hu : ∀ i a, 0 ≤ u i a) (hw : ∀ a b, 0 ≤ w a b)
-    (hA : ∀ e, 0 ≤ d.A e) (hr : ∀ a b, 0 ≤ r a b) :
+    (hA : ∀ e < d.E, 0 ≤ d.A e) (hr : ∀ a b, 0 ≤ r a b) :
     (∀ a b, 0 ≤ wUpdate d u w r a b) ∧
     (∀ a b, w a b = w b a → r a b = r b a → wUpdate d u w r a b = wUpdate d u w r b a) ∧
     (∀ a b, w a b = 0 → wUpdate d u w r a b = 0) :=
@@ -149,7 +161,7 @@ theorem C15_update_nonneg_sym (d : Data) (u w r : Mat) (hu : ∀ i a, 0 ≤ u i 
 
 /-- `_u_update`: for `u, w, A, r ≥ 0`, `w` symmetric, every entry of the new `u` is `≥ 0` -/
 theorem C15_u_update_nonneg (d : Data) (u w r : Mat) (hu : ∀ i a, 0 ≤ u i a) (hw : ∀ a b, 0 ≤ w a b)
-    (hsym : ∀ a < d.K, ∀ b < d.K, w a b = w b a) (hA : ∀ e, 0 ≤ d.A e) (hr : ∀ i a, 0 ≤ r i a) :
+    (hsym : ∀ a < d.K, ∀ b < d.K, w a b = w b a) (hA : ∀ e < d.E, 0 ≤ d.A e) (hr : ∀ i a, 0 ≤ r i a) :
     ∀ i < d.N, ∀ a < d.K, 0 ≤ uUpdate d u w r i a :=
   fun i hi a ha => uUpdate_nonneg d u w r hu hw hsym hA hr i hi a ha
 
@@ -172,13 +184,13 @@ is the Poisson log-likelihood up to a constant).  Hypotheses: `u, w ≥ 0`, posi
 parameters of the data hyperedges (sizes ≥ 2 with overlapping memberships), positive denominators
 (`r > 0`, or two nodes share the communities).  The invariants needed to iterate are part of the conclusion. -/
 theorem C15_ascent_step (d : Data) (u w r : Mat) (hu : ∀ i a, 0 ≤ u i a) (hw : ∀ a b, 0 ≤ w a b)
-    (hA : ∀ e, 0 < d.A e) (hr : ∀ a b, 0 ≤ r a b)
+    (hA : ∀ e < d.E, 0 < d.A e) (hr : ∀ a b, 0 ≤ r a b)
     (hlam : ∀ e < d.E, 0 < poisson d.N d.K u w (d.edge e))
     (hden : ∀ a < d.K, ∀ b < d.K, 0 < wDen d.N u a b + r a b) :
     penLik d u r w ≤ penLik d u r (wUpdate d u w r) ∧
     (∀ a b, 0 ≤ wUpdate d u w r a b) ∧
     (∀ e < d.E, 0 < poisson d.N d.K u (wUpdate d u w r) (d.edge e)) :=
-  ⟨ascent_step d u w r hu hw hA hlam hden, wUpdate_nonneg d u w r hu hw (fun e => (hA e).le) hr,
+  ⟨ascent_step d u w r hu hw hA hlam hden, wUpdate_nonneg d u w r hu hw (fun e he => (hA e he).le) hr,
    poisson_pos_after d u w r hu hw hA hr hlam hden⟩
 
 /-- **Memberships supplied ⇒ the penalised log-likelihood of the affinity after `n+1` passes of `fit`'s loop
@@ -186,10 +198,112 @@ is at least that after `n` passes**, for every initial draw `w0 ≥ 0` with posi
 With `w_prior = 0` this is the property's statement (`penLik` with `r = 0` is the exact Poisson
 log-likelihood of the data under the returned `w/C` up to an additive constant, see notes). -/
 theorem C15_ascent (d : Data) (us w0 : List (List Rat)) (ru rw : Mat)
-    (hu : ∀ i a, 0 ≤ matOf us i a) (hw0 : ∀ a b, 0 ≤ matOf w0 a b) (hA : ∀ e, 0 < d.A e)
+    (hu : ∀ i a, 0 ≤ matOf us i a) (hw0 : ∀ a b, 0 ≤ matOf w0 a b) (hA : ∀ e < d.E, 0 < d.A e)
     (hr : ∀ a b, 0 ≤ rw a b)
     (hlam : ∀ e < d.E, 0 < poisson d.N d.K (matOf us) (matOf w0) (d.edge e))
     (hden : ∀ a < d.K, ∀ b < d.K, 0 < wDen d.N (matOf us) a b + rw a b) (n : ℕ) :
     penLik d (matOf us) rw (matOf (emLoop d true false ru rw n { u := us, w := w0 }).w)
       ≤ penLik d (matOf us) rw (matOf (emLoop d true false ru rw (n + 1) { u := us, w := w0 }).w) :=
   loop_ascent d us w0 ru rw hu hw0 hA hr hlam hden n
+
+/-- the normaliser of the Poisson model: the sum over ALL possible hyperedges of size `2..D` of `λ_s/κ_|s|`
+is `C()·bf_and_sum(u, w)` (what `log_likelihood` / the loop use) -/
+theorem C15_normaliser (N K D : ℕ) (u w : Mat) (hw : ∀ a < K, ∀ b < K, w a b = w b a) (hD : D ≤ N) :
+    (sumL (dims 2 D) fun dd => ∑ s ∈ (range N).powersetCard dd, pairSum K u w s / kappa N dd)
+      = C (dims 2 D) * bfSum N K u w :=
+  normaliser_closed N K D u w hw hD
+
+/-- `exactLik` = exact Poisson log-likelihood of the data (all possible hyperedges of size `2..D`, means
+`λ_s/κ_|s|`) minus the prior term; under the returned `w = w̃/C` it is `penLik(w̃)` minus a constant -/
+theorem C15_exact_likelihood (d : Data) (D : ℕ) (u r w : Mat)
+    (hw : ∀ a < d.K, ∀ b < d.K, w a b = w b a) (hD2 : 2 ≤ D) (hDN : D ≤ d.N)
+    (hsize : ∀ e < d.E, 2 ≤ (d.edge e).length ∧ (d.edge e).length ≤ d.N)
+    (hlam : ∀ e < d.E, 0 < poisson d.N d.K u w (d.edge e)) :
+    exactLik d D u r (fun a b => w a b / C (dims 2 D))
+      = penLik d u r w
+        - ∑ e ∈ range d.E, ((d.A e : ℚ) : ℝ) *
+            Real.log (((C (dims 2 D) * kappa d.N (d.edge e).length : ℚ)) : ℝ) :=
+  exactLik_eq d D u r w hw hD2 hDN hsize hlam
+
+/-- **The property's statement about `fit`.**  Memberships supplied, affinity inferred: the exact Poisson
+log-likelihood of the data under the parameters returned by `fit(n_iter = n+1)` (penalised by the prior term
+when `w_prior > 0`; for `w_prior = 0` it is the plain likelihood) is at least that of `fit(n_iter = n)`, for
+the same initial draw.  Hypotheses: `u ≥ 0` (constructor check), initial draw `w0 ≥ 0` symmetric (what
+`_init_w` produces) with positive Poisson parameters, positive weights, prior `≥ 0` symmetric, positive
+denominators, hyperedge sizes in `2..N`, `2 ≤ max_hye_size ≤ N`. -/
+theorem C15_ascent_fit (d : Data) (us u0 w0 : List (List Rat)) (Dsup : Option ℕ) (ru rw : Mat) (sqrtC : Rat)
+    (hu : ∀ i a, 0 ≤ matOf us i a) (hw0 : ∀ a b, 0 ≤ matOf w0 a b) (hA : ∀ e < d.E, 0 < d.A e)
+    (hr : ∀ a b, 0 ≤ rw a b)
+    (hlam : ∀ e < d.E, 0 < poisson d.N d.K (matOf us) (matOf w0) (d.edge e))
+    (hden : ∀ a < d.K, ∀ b < d.K, 0 < wDen d.N (matOf us) a b + rw a b)
+    (hsym0 : ∀ a b, matOf w0 a b = matOf w0 b a) (hrsym : ∀ a b, rw a b = rw b a)
+    (hsize : ∀ e < d.E, 2 ≤ (d.edge e).length ∧ (d.edge e).length ≤ d.N)
+    (n D D' : ℕ) (p p' : Params)
+    (h1 : fit d (some us) none Dsup u0 w0 ru rw sqrtC n = some (D, p))
+    (h2 : fit d (some us) none Dsup u0 w0 ru rw sqrtC (n + 1) = some (D', p'))
+    (hD2 : 2 ≤ D) (hDN : D ≤ d.N) :
+    D' = D ∧ exactLik d D (matOf us) rw (matOf p.w) ≤ exactLik d D (matOf us) rw (matOf p'.w) :=
+  fit_ascent d us u0 w0 Dsup ru rw sqrtC hu hw0 hA hr hlam hden hsym0 hrsym hsize n D D' p p' h1 h2 hD2 hDN
+
+/-! ## D28 — the property's plain-likelihood claim fails when `w_prior > 0` (by design: MAP step)
+
+`C15_ascent` with `rw > 0` is about the PENALISED objective.  The unpenalised log-likelihood (`penLik` with
+rate 0) can strictly decrease from `n_iter = 1` to `n_iter = 2`; all hypotheses of `C15_ascent` hold for this
+input, so the failure is not a matter of ill-posed data.  The harness replays these numbers on the real code. -/
+
+theorem C15_plain_likelihood_can_decrease :
+    ∃ (d : Data) (us w0 : List (List Rat)) (rw : Mat),
+      (∀ i a, 0 ≤ matOf us i a) ∧ (∀ a b, 0 ≤ matOf w0 a b) ∧ (∀ e < d.E, 0 < d.A e) ∧ (∀ a b, 0 < rw a b) ∧
+      (∀ e < d.E, 0 < poisson d.N d.K (matOf us) (matOf w0) (d.edge e)) ∧
+      (∀ a < d.K, ∀ b < d.K, 0 < wDen d.N (matOf us) a b + rw a b) ∧
+      ∀ ru : Mat,
+        penLik d (matOf us) (fun _ _ => 0) (matOf (emLoop d true false ru rw 2 { u := us, w := w0 }).w)
+          < penLik d (matOf us) (fun _ _ => 0) (matOf (emLoop d true false ru rw 1 { u := us, w := w0 }).w) := by
+  refine ⟨witD, witU, witW0, witR, witU_nonneg, witW0_nonneg, witD_A, fun _ _ => by simp [witR], witD_lam,
+    witD_den, fun ru => ?_⟩
+  have h1 := wit_after1 ru
+  have h2 := wit_after2 ru
+  unfold wAfter at h1 h2
+  rw [h1, h2, wit_lik1, wit_lik2]
+  exact wit_ineq
+
+/-! ## non-vacuity: the hypotheses of the theorems above are satisfiable on concrete non-trivial inputs -/
+
+example : poisson 3 2 (matOf witU) exW [0, 2, 1]
+    = ∑ p ∈ (nodesOf 3 [0, 2, 1]).offDiag with p.1 < p.2, bf 2 (matOf witU p.1) (matOf witU p.2) exW :=
+  C15_poisson 3 2 (matOf witU) exW [0, 2, 1] exW_symm
+
+example : Cterm 3 * bfSum 4 2 (matOf witU) exW
+    = ∑ e ∈ (range 4).powersetCard 3, pairSum 2 (matOf witU) exW e / kappa 4 3 :=
+  C15_dim_seq 4 2 (matOf witU) exW exW_symm 3 (by norm_num) (by norm_num)
+
+example : expDegAvg 3 2 (matOf witU) exW [2, 3]
+    = 1 / ((3 : ℕ) : ℚ) * ∑ i ∈ range 3, sumL [2, 3] fun d =>
+        ∑ e ∈ (range 3).powersetCard d with i ∈ e, pairSum 2 (matOf witU) exW e / kappa 3 d :=
+  C15_exp_degree_avg 3 2 (matOf witU) exW exW_symm (by norm_num) [2, 3] (by simp)
+
+example : expDegNode 4 2 (matOf witU) exW [2, 3, 4] 1
+    = sumL [2, 3, 4] fun d => ∑ e ∈ (range 4).powersetCard d with 1 ∈ e, pairSum 2 (matOf witU) exW e / kappa 4 d :=
+  C15_exp_degree_node 4 2 (matOf witU) exW exW_symm (by norm_num) 1 (by norm_num) [2, 3, 4] (by simp)
+
+example : ∃ D p, fit witD (some witU) none none [] witW0 (fun _ _ => 0) witR 1 3 = some (D, p) ∧ p.u = witU :=
+  ⟨_, _, rfl, C15_fixed_u witD witU none none [] witW0 (fun _ _ => 0) witR 1 3 _ _ rfl⟩
+
+example : ∃ D p, fit witD none (some witW0) (some 5) witU [] (fun _ _ => 0) witR 1 3 = some (D, p) ∧ p.w = witW0 ∧ D = 5 :=
+  ⟨5, _, rfl, C15_fixed_w witD none witW0 (some 5) witU [] (fun _ _ => 0) witR 1 3 _ _ rfl, rfl⟩
+
+example : wUpdate? witD (matOf witU) (matOf witW0) witR = some (wUpdate witD (matOf witU) (matOf witW0) witR) :=
+  C15_update_finite witD _ _ witR witD_lam witD_den
+
+example : ∀ n, penLik witD (matOf witU) witR (matOf (emLoop witD true false (fun _ _ => 0) witR n { u := witU, w := witW0 }).w)
+    ≤ penLik witD (matOf witU) witR (matOf (emLoop witD true false (fun _ _ => 0) witR (n + 1) { u := witU, w := witW0 }).w) :=
+  C15_ascent witD witU witW0 (fun _ _ => 0) witR witU_nonneg witW0_nonneg witD_A (fun _ _ => by simp [witR])
+    witD_lam witD_den
+
+example (n : ℕ) : ∃ D p p', fit witD (some witU) none none [] witW0 (fun _ _ => 0) witR 1 n = some (D, p) ∧
+    fit witD (some witU) none none [] witW0 (fun _ _ => 0) witR 1 (n + 1) = some (D, p') ∧
+    exactLik witD D (matOf witU) witR (matOf p.w) ≤ exactLik witD D (matOf witU) witR (matOf p'.w) :=
+  ⟨_, _, _, rfl, rfl,
+    (C15_ascent_fit witD witU [] witW0 none (fun _ _ => 0) witR 1 witU_nonneg witW0_nonneg witD_A
+      (fun _ _ => by simp [witR]) witD_lam witD_den witW0_symm (fun _ _ => rfl) witD_size n _ _ _ _ rfl rfl
+      (by decide) (by decide)).2⟩
